@@ -27,7 +27,7 @@ ASSUMPTIONS = [
     "two-valued oracle (DESIGN 4.x): report == reference partition of the scanned set minus L, where L is a subset of "
     "the faulted entry (its subtree for a directory) that is absent from the report",
     "serial run (--threads 1): per-path ordinals are exact positions",
-    "input root paths themselves are not faulted (fclones rejects inaccessible inputs up front by design)",
+    "the first stat of an input path given as an ARGUMENT is not faulted (fclones rejects inaccessible inputs up front by design); later stats of input paths, and all stats of input paths read from --stdin, are",
 ]
 
 
@@ -54,6 +54,15 @@ def scenarios(tier):
     w.add_file("r1/a", _c(6, 100)); w.add_file("r2/b", _c(6, 100)); w.add_file("r2/sub/c", _c(6, 100))
     w.add_symlink("r1/l", "../r2/b"); w.add_symlink("r1/dl", "../r2/sub")
     sc.append({"name": "follow-links", "world": w.to_json(), "roots": ["r1"], "gargs": ["-L"], "kind": "unknown", "knobs": KNOBS})
+    # several input paths: a fault on one of them (after the up-front accessibility check, which rejects the whole
+    # command line by design) must cost that input path only
+    w = World()
+    w.add_file("r1/a", _c(11, 120)); w.add_file("r2/b", _c(11, 120)); w.add_file("r2/s/c", _c(11, 120)); w.add_file("r3/d", _c(11, 120))
+    w.add_file("r1/e", _c(12, 30)); w.add_file("r3/f", _c(12, 30))
+    sc.append({"name": "several-inputs", "world": w.to_json(), "roots": ["r1", "r2", "r3"], "gargs": [], "kind": "ssd", "knobs": KNOBS,
+               "root_faults_from": 1})
+    sc.append({"name": "stdin-inputs", "world": w.to_json(), "roots": ["r1", "r2", "r2/s/c", "r3"], "gargs": [], "kind": "ssd", "knobs": KNOBS,
+               "root_faults_from": 0, "stdin_roots": True})
     if tier == "thorough":
         w = World()
         for i in range(3):
@@ -84,6 +93,9 @@ def _env(sc):
 
 def _group(rd, sc, plan=None, on_hit=None):
     roots = [os.path.join(rd.world, r) for r in sc["roots"]]
+    if sc.get("stdin_roots"):
+        return ops.group(rd, [], sc["gargs"] + ["--stdin", "--threads", "1", "-f", "json"], env=_env(sc), plan=plan or [],
+                         on_hit=on_hit, seed=9, stdin="".join(r + "\n" for r in roots).encode())
     return ops.group(rd, roots, sc["gargs"] + ["--threads", "1", "-f", "json"], env=_env(sc), plan=plan or [],
                      on_hit=on_hit, seed=9)
 
@@ -104,7 +116,7 @@ def record(sc):
             rel = ops.relw(rd, e.path)
             if rel is None:
                 continue
-            if rel in rootset and e.kind in ("stat", "lstat"):
+            if rel in rootset and e.kind in ("stat", "lstat") and e.ord < sc.get("root_faults_from", 10**9):
                 continue
             if os.path.basename(rel) in (b".gitignore", b".fdignore"):
                 continue
@@ -173,6 +185,11 @@ def run_case(case):
             blocked.add(os.path.realpath(ent))
         affected = set(sel) - set(model.scan(roots, follow=follow, blocked=blocked))
         affected |= {p for p in sel if p in blocked}
+        # an entry that really vanishes takes its whole subtree with it, whichever input path leads there
+        for f in case["faults"]:
+            if f["act"] == "vanish":
+                ent = ops.absw(rd, f["path"])
+                affected |= {p for p in sel if _under(ent, p) or _under(os.path.realpath(ent), p)}
         filt = sc.get("filter", {})
         plan = []
         vanish = {}
